@@ -4,6 +4,9 @@ import (
 	"fmt"
 	"go/token"
 	"go/types"
+	"regexp"
+	"sort"
+	"strings"
 
 	"golang.org/x/tools/go/ssa"
 )
@@ -27,12 +30,19 @@ func isScopePtr(t types.Type) bool {
 }
 
 func ruleEScopeThread(p *Program, r *Reporter) {
-	newCalls := 0
+	d := newEvalDom(p)
+	if d.why != "" {
+		r.Unknown(token.NoPos, "evaluator model", d.why)
+		return
+	}
+	isScope := func(t types.Type) bool { return types.Identical(t, d.scopeT) }
+	entryNil := 0
 	for _, fn := range p.ReachFuncs(p.Eval) {
 		name := p.FuncName(fn)
 		var scopeParam *ssa.Parameter
-		for _, prm := range fn.Params {
-			if isScopePtr(prm.Type()) && (fn.Signature.Recv() == nil || prm != fn.Params[0] || !isScopePtr(fn.Signature.Recv().Type())) {
+		recvIsScope := fn.Signature.Recv() != nil && isScope(fn.Signature.Recv().Type())
+		for i, prm := range fn.Params {
+			if isScope(prm.Type()) && !(recvIsScope && i == 0) {
 				scopeParam = prm
 			}
 		}
@@ -46,15 +56,14 @@ func ruleEScopeThread(p *Program, r *Reporter) {
 				c := ci.Common()
 				callee := calleeOf(c)
 				for ai, arg := range c.Args {
-					if !isScopePtr(arg.Type()) {
+					if !isScope(arg.Type()) {
 						continue
 					}
-					// receiver of scope methods (get/new) counts as a use of the scope too
 					n++
 					key := fmt.Sprintf("%s scope-arg#%d to %s", name, n, calleeFullNameShort(c))
 					switch a := arg.(type) {
 					case *ssa.Parameter:
-						if a == scopeParam || isScopeMethodRecv(fn, a) {
+						if a == scopeParam || (recvIsScope && a == fn.Params[0]) {
 							r.Trivial(in.Pos(), key, "the function's own scope parameter")
 						} else {
 							r.Bad(instrPos(in), key, "passes a scope that is not the function's own scope parameter")
@@ -62,33 +71,35 @@ func ruleEScopeThread(p *Program, r *Reporter) {
 					case *ssa.FreeVar:
 						r.Trivial(in.Pos(), key, "captured scope of the enclosing function")
 					case *ssa.Const:
-						if fn.Name() == "Evaluate" && fn.Parent() == nil {
+						if fn.Parent() == nil && fn.Signature.Recv() == nil && scopeParam == nil && callee == d.evalFn {
+							entryNil++
 							r.OK(in.Pos(), key, "top-level evaluation starts with the empty (nil) scope")
 						} else {
 							r.Bad(instrPos(in), key, "passes a nil scope: variables bound by enclosing let expressions become undefined here")
 						}
 					case *ssa.Call:
-						if cf := calleeOf(&a.Call); cf != nil && cf.Name() == "new" && isScopePtr(a.Type()) {
-							// child scope: allowed only as the scope of the evaluation of the let body
-							newCalls++
-							good := callee != nil && callee.Name() == "evaluate" && len(c.Args) == 4 && ai == 3 && isFieldLoad(c.Args[1], "Child") && a.Call.Args[0] == ssa.Value(scopeParam)
-							if good {
-								r.OK(in.Pos(), key, "child scope created from the current scope and used only to evaluate the let body (field Child)")
-							} else {
-								r.Bad(instrPos(in), key, "a child scope is created or used outside the evaluation of the let body")
-							}
-							// its only use must be this call
-							if refs := a.Referrers(); refs != nil && len(*refs) != 1 {
-								r.Bad(instrPos(a), key+" uses", "the child scope is used in more than one place")
+						cf := calleeOf(&a.Call)
+						if cf != nil && cf.Signature.Recv() != nil && isScope(cf.Signature.Recv().Type()) && isScope(a.Type()) && fn == d.evalFn {
+							// the child scope of the let case: its use is decided by D-DISPATCH (only the body of the let is evaluated in it)
+							r.Trivial(in.Pos(), key, "child scope created by the dispatcher (context decided by D-DISPATCH)")
+							if ai < len(c.Args) && callee != d.evalFn {
+								r.Bad(instrPos(in), key+" use", "the child scope is handed to something other than the recursive evaluation")
 							}
 						} else {
-							r.Bad(instrPos(in), key, "scope argument computed by "+a.String())
+							r.Bad(instrPos(in), key, "scope argument computed by "+a.String()+": scopes are created only by the dispatcher's let case")
 						}
 					case *ssa.UnOp:
-						if isFieldLoad(a, "parent") && fn.Signature.Recv() != nil && isScopePtr(fn.Params[0].Type()) && callee != nil && callee.Name() == "get" && ai == 0 {
-							r.Trivial(in.Pos(), key, "scope chain walk: parent of the receiver")
+						// walking the chain inside a scope method: a field of the receiver that is itself a scope
+						if fa, ok := a.X.(*ssa.FieldAddr); ok && a.Op == token.MUL && recvIsScope && isScope(fa.X.Type()) {
+							r.Trivial(in.Pos(), key, "scope chain walk inside a scope method")
 						} else {
 							r.Bad(instrPos(in), key, "scope argument loaded from "+a.X.String())
+						}
+					case *ssa.Phi:
+						if recvIsScope {
+							r.Trivial(in.Pos(), key, "scope chain walk inside a scope method")
+						} else {
+							r.Bad(instrPos(in), key, "scope argument merged from several values: "+arg.String())
 						}
 					default:
 						r.Bad(instrPos(in), key, "scope argument is neither the function's parameter nor the let body's child scope: "+arg.String())
@@ -97,78 +108,8 @@ func ruleEScopeThread(p *Program, r *Reporter) {
 			}
 		}
 	}
-	if newCalls != 1 {
-		r.Bad(token.NoPos, "child scopes", fmt.Sprintf("%d child-scope creations found, expected exactly one (the let case)", newCalls))
-	}
-	// let case: the bindings loop evaluates with (binding node, current, variables) and the body with current too
-	ev := p.Func(p.Eval, "evaluator", "evaluate")
-	if ev == nil || len(ev.Params) < 4 {
-		r.Unknown(token.NoPos, "let case", "evaluator.evaluate not found")
-		return
-	}
-	cur := ev.Params[2]
-	for _, b := range ev.Blocks {
-		for _, in := range b.Instrs {
-			mu, ok := in.(*ssa.MapUpdate)
-			if !ok {
-				continue
-			}
-			// results[name] = result where result = extract(evaluate(node, current, variables))
-			ex, ok := mu.Value.(*ssa.Extract)
-			if !ok {
-				continue
-			}
-			call, ok := ex.Tuple.(*ssa.Call)
-			if !ok || calleeOf(&call.Call) != ev {
-				continue
-			}
-			if !rangeValueOfField(call.Call.Args[1], "Variables") {
-				continue
-			}
-			key := "evaluator.evaluate let-binding evaluation"
-			if call.Call.Args[2] == ssa.Value(cur) && call.Call.Args[3] == ssa.Value(ev.Params[3]) {
-				r.OK(call.Pos(), key, "bindings are evaluated against the enclosing current node and the outer scope (they do not see each other)")
-			} else {
-				r.Bad(instrPos(call), key, "a let binding is not evaluated with the enclosing current node and the outer scope")
-			}
-			// the binding's name must be the map key it iterates
-			if _, isMake := mu.Map.(*ssa.MakeMap); !isMake {
-				r.Bad(instrPos(mu), key+" target", "bindings are not collected in a fresh map")
-			}
-		}
-	}
-	// the body evaluation passes current unchanged
-	for _, b := range ev.Blocks {
-		for _, in := range b.Instrs {
-			call, ok := in.(*ssa.Call)
-			if !ok || calleeOf(&call.Call) != ev || !isFieldLoad(call.Call.Args[1], "Child") {
-				continue
-			}
-			if _, isNew := call.Call.Args[3].(*ssa.Call); !isNew {
-				continue
-			}
-			if call.Call.Args[2] == ssa.Value(cur) {
-				r.OK(call.Pos(), "evaluator.evaluate let-body current", "the let body is evaluated against the enclosing current node")
-			} else {
-				r.Bad(instrPos(call), "evaluator.evaluate let-body current", "the let body is not evaluated against the enclosing current node")
-			}
-		}
-	}
-	// VariableNode: reads the scope, never re-evaluates
-	for _, b := range ev.Blocks {
-		for _, in := range b.Instrs {
-			call, ok := in.(*ssa.Call)
-			if !ok {
-				continue
-			}
-			if cf := calleeOf(&call.Call); cf != nil && cf.Name() == "get" && isScopePtr(call.Call.Args[0].Type()) {
-				if call.Call.Args[0] == ssa.Value(ev.Params[3]) && isFieldLoad(call.Call.Args[1], "Name") {
-					r.OK(call.Pos(), "evaluator.evaluate variable lookup", "a variable reference reads the current scope with the node's name")
-				} else {
-					r.Bad(instrPos(call), "evaluator.evaluate variable lookup", "variable lookup does not use the current scope and the node's name")
-				}
-			}
-		}
+	if entryNil == 0 {
+		r.Bad(token.NoPos, "entry scope", "no top-level call of the dispatcher with the nil scope found")
 	}
 }
 
@@ -196,105 +137,163 @@ func isFieldLoad(v ssa.Value, field string) bool {
 }
 
 func ruleEScopeChain(p *Program, r *Reporter) {
-	get := p.Func(p.Eval, "variableScope", "get")
-	nw := p.Func(p.Eval, "variableScope", "new")
-	if get == nil || nw == nil {
-		r.Unknown(token.NoPos, "variableScope", "methods get/new not found")
+	d := newEvalDom(p)
+	if d.why != "" {
+		r.Unknown(token.NoPos, "evaluator model", d.why)
 		return
 	}
-	// get: lookups in the variables map must be comma-ok; the found-return is under the ok edge; parent use under not-ok
-	var lookups []*ssa.Lookup
-	for _, b := range get.Blocks {
-		for _, in := range b.Instrs {
-			if lk, ok := in.(*ssa.Lookup); ok {
-				if _, isMap := lk.X.Type().Underlying().(*types.Map); isMap {
-					lookups = append(lookups, lk)
-				}
-			}
+	var lookup, push *ssa.Function
+	ms := p.SSA.MethodSets.MethodSet(d.scopeT)
+	for i := 0; i < ms.Len(); i++ {
+		fn := p.SSA.MethodValue(ms.At(i))
+		if fn == nil || len(fn.Blocks) == 0 {
+			continue
+		}
+		sig := fn.Signature
+		switch {
+		case sig.Results().Len() == 1 && types.Identical(sig.Results().At(0).Type(), d.scopeT):
+			push = fn
+		case sig.Params().Len() == 1 && sig.Results().Len() == 2 && isBoolType(sig.Results().At(1).Type()):
+			lookup = fn
 		}
 	}
-	if len(lookups) == 0 {
-		r.Unknown(get.Pos(), "variableScope.get lookup", "no map lookup found")
+	if lookup == nil || push == nil {
+		r.Unknown(token.NoPos, "scope methods", "the scope type has no (name) (value, bool) lookup method or no method returning a new scope")
+		return
 	}
-	for i, lk := range lookups {
-		key := fmt.Sprintf("variableScope.get lookup#%d", i+1)
-		if !lk.CommaOk {
-			r.Bad(instrPos(lk), key, "presence of a binding is decided from the looked-up value, not with the comma-ok form: a variable bound to null is treated as unbound and resolved in an outer scope")
-			continue
+	// lookup over a chain of two scopes, then over the nil scope
+	run := func(chain int) (map[string]bool, string) {
+		e := newEngine(p, scopeDom{})
+		e.MaxVisits = 4
+		st := newState()
+		var recv AV = avNil{}
+		var objs []*avObj
+		for i := 0; i < chain; i++ {
+			objs = append(objs, e.NewObj(fmt.Sprintf("scope%d", i+1), derefType(d.scopeT)))
 		}
-		if !isFieldLoad(lk.X, "variables") {
-			r.Bad(instrPos(lk), key, "lookup is not in the scope's own map")
-			continue
-		}
-		var okv ssa.Value
-		for _, ref := range *lk.Referrers() {
-			if ex, ok := ref.(*ssa.Extract); ok && ex.Index == 1 {
-				okv = ex
-			}
-		}
-		if okv == nil {
-			r.Bad(instrPos(lk), key, "the ok result of the lookup is discarded")
-			continue
-		}
-		// every use of the parent (call to get on parent / load of parent) must be under ok == false
-		bad := ""
-		for _, b := range get.Blocks {
-			for _, in := range b.Instrs {
-				if ld, ok := in.(*ssa.UnOp); ok && isFieldLoad(ld, "parent") {
-					if !boolFact(b, okv, false) && b != lk.Block() {
-						bad = "the parent scope is consulted at " + p.Pos(instrPos(ld)) + " without the own map having missed"
+		stt, _ := derefType(d.scopeT).Underlying().(*types.Struct)
+		for i, o := range objs {
+			for f := 0; stt != nil && f < stt.NumFields(); f++ {
+				fld := stt.Field(f)
+				switch {
+				case types.Identical(fld.Type(), d.scopeT):
+					if i+1 < len(objs) {
+						st.store(avPtr{o, "." + fld.Name()}, avPtr{objs[i+1], ""})
+					} else {
+						st.store(avPtr{o, "." + fld.Name()}, avNil{})
+					}
+				default:
+					if _, isMap := fld.Type().Underlying().(*types.Map); isMap {
+						st.store(avPtr{o, "." + fld.Name()}, avPtr{e.NewObj(fmt.Sprintf("vars%d", i+1), fld.Type()), ""})
 					}
 				}
 			}
 		}
-		// found-return: returns (value, true) only under ok
-		for _, ret := range returnsOf(get) {
-			if c, ok := ret.Results[1].(*ssa.Const); ok && c.Value != nil && c.Value.String() == "true" {
-				if !boolFact(ret.Block(), okv, true) {
-					bad = "returns found=true at " + p.Pos(ret.Pos()) + " without a successful lookup"
-				}
-			}
+		if chain > 0 {
+			recv = avPtr{objs[0], ""}
 		}
-		if bad != "" {
-			r.Bad(instrPos(lk), key, bad)
+		name := avSym{id: e.fresh(), tag: "name"}
+		outs := e.Run(lookup, []AV{recv, name}, st)
+		if e.Aborted != "" {
+			return nil, e.Aborted
+		}
+		lines := map[string]bool{}
+		for _, o := range outs {
+			if o.Panic {
+				lines["PANIC"] = true
+				continue
+			}
+			if o.Cut {
+				lines["CUT"] = true
+				continue
+			}
+			var cs []string
+			for _, c := range o.St.Conds {
+				k := avKey(c.V)
+				if !c.Truth {
+					k = "!" + k
+				}
+				cs = append(cs, k)
+			}
+			lines[strings.Join(cs, ",")+" => "+avKey(o.Res[0])+","+avKey(o.Res[1])] = true
+		}
+		return lines, ""
+	}
+	want := map[int]map[string]bool{
+		0: {" => nil,false": true},
+		1: {"ok:vars1[name]#0 => val:vars1[name]#0,true": true, "!ok:vars1[name]#0 => nil,false": true},
+		2: {"ok:vars1[name]#0 => val:vars1[name]#0,true": true, "!ok:vars1[name]#0,ok:vars2[name]#0 => val:vars2[name]#0,true": true, "!ok:vars1[name]#0,!ok:vars2[name]#0 => nil,false": true},
+	}
+	for chain := 0; chain <= 2; chain++ {
+		key := fmt.Sprintf("scope lookup over a chain of %d", chain)
+		got, why := run(chain)
+		if why != "" {
+			r.Unknown(lookup.Pos(), key, why)
+			continue
+		}
+		for k := range got {
+			delete(got, k)
+			got[symID.ReplaceAllString(k, "name")] = true
+		}
+		norm := func(m map[string]bool) []string {
+			var out []string
+			for k := range m {
+				out = append(out, k)
+			}
+			sort.Strings(out)
+			return out
+		}
+		g, w := strings.Join(norm(got), " ; "), strings.Join(norm(want[chain]), " ; ")
+		if g == w {
+			r.OK(lookup.Pos(), key, "presence decided by the comma-ok result of the innermost map first, the next scope only after a miss, absent only after the last: "+g)
 		} else {
-			r.OK(lk.Pos(), key, "own map consulted first with comma-ok; parent only on the not-found edge")
+			r.Bad(lookup.Pos(), key, "the lookup behaves as: "+g+" ; specified: "+w+" (a binding is present exactly when its own map has the key, whatever its value; inner scopes shadow outer ones)")
 		}
 	}
-	// new: &variableScope{parent: s, variables: variables}
-	good := 0
-	for _, b := range nw.Blocks {
-		for _, in := range b.Instrs {
-			st, ok := in.(*ssa.Store)
-			if !ok {
-				continue
-			}
-			fa, ok := st.Addr.(*ssa.FieldAddr)
-			if !ok {
-				continue
-			}
-			switch fieldName(fa) {
-			case "parent":
-				if st.Val == ssa.Value(nw.Params[0]) {
-					good++
-					r.OK(st.Pos(), "variableScope.new parent", "child scope links to the receiver")
-				} else {
-					r.Bad(instrPos(st), "variableScope.new parent", "child scope does not link to the receiver: outer bindings are lost or replaced")
-				}
-			case "variables":
-				if len(nw.Params) > 1 && st.Val == ssa.Value(nw.Params[1]) {
-					good++
-					r.OK(st.Pos(), "variableScope.new variables", "child scope holds the given bindings")
-				} else {
-					r.Bad(instrPos(st), "variableScope.new variables", "child scope does not hold the given bindings")
-				}
-			}
+	// push: the new scope links to the receiver and holds the given map
+	{
+		e := newEngine(p, scopeDom{})
+		st := newState()
+		recv := avSym{id: e.fresh(), tag: "recv", nonNil: true}
+		vars := avSym{id: e.fresh(), tag: "vars"}
+		args := []AV{recv}
+		for i := 0; i < push.Signature.Params().Len(); i++ {
+			args = append(args, vars)
 		}
-	}
-	if good < 2 {
-		r.Bad(nw.Pos(), "variableScope.new fields", "new does not initialise both parent and variables")
+		outs := e.Run(push, args, st)
+		ok := len(outs) == 1 && !outs[0].Panic && !outs[0].Cut && len(outs[0].Res) == 1
+		detail := ""
+		if ok {
+			f := outs[0].St.fieldsOf(outs[0].Res[0])
+			nLink, nVars := 0, 0
+			for _, v := range f {
+				switch avKey(v) {
+				case avKey(recv):
+					nLink++
+				case avKey(vars):
+					nVars++
+				}
+			}
+			ok = nLink == 1 && nVars == 1
+			detail = fmt.Sprintf("%d fields link to the receiver, %d hold the given bindings", nLink, nVars)
+		}
+		if ok {
+			r.OK(push.Pos(), "scope creation", "the child scope links to the receiver and holds the given bindings")
+		} else {
+			r.Bad(push.Pos(), "scope creation", "the child scope does not link to the receiver and hold the given bindings on its single path ("+detail+"): outer bindings are lost or replaced")
+		}
 	}
 }
+
+var symID = regexp.MustCompile(`name#\d+`)
+
+// scopeDom: nothing is modelled; map lookups on labelled maps are memoised symbols (see Engine.eval Lookup).
+type scopeDom struct{}
+
+func (scopeDom) Call(e *Engine, st *State, site ssa.CallInstruction, callee *ssa.Function, args []AV, depth int) ([]CallOut, bool) {
+	return nil, false
+}
+func (scopeDom) Load(e *Engine, st *State, p avPtr, t types.Type) AV { return zeroAV(t) }
 
 // boolFact: block b is dominated by the edge on which boolean v has the given truth.
 func boolFact(b *ssa.BasicBlock, v ssa.Value, truth bool) bool {
